@@ -377,7 +377,31 @@ def sweep_obligations(c):
         rows = sorted((conc(r, model), uuid_str(_k(k)[2][0])) for i, k, r in sa_rows if conc(i, model))
         amend = [uuid_str(_k(k)[2][0]) for oc, k, o in post['resting'] if conc(oc, model) and conc(OrderView(L, o).displayed, model) == 0]
         return {'expected_first': None, 'expected_order': [x[1] for x in rows], 'subset': True, 'amend': amend}
-    extra = [{'name': 'M(sweep): makers passed over without a trade keep their relative order when the call re-queues them',
+    # a maker must not trade twice in a call while an EARLIER-arrived order that shows quantity when the call returns has not
+    # traded at all in it (an order replenished on its first visit joins the back then, not when the call ends)
+    twice_bad = []
+    for occ_y, key_y, o_y in pre['resting']:
+        ny = [S.And(v, veq(t['maker_order_id'], key_y)) for v, t in T]
+        twice = S.Or([S.And(ny[a], ny[b]) for a in range(len(ny)) for b in range(a)])
+        if twice is S.FALSE:
+            continue
+        nty = [S.And(pr, S.Not(pp), veq(idv, key_y)) for _, pr, pp, idv in pre['tickets']]
+        dup_y = S.Or([S.And(nty[a], nty[b]) for a in range(len(nty)) for b in range(a)])
+        for occ_x, key_x, o_x in pre['resting']:
+            if _k(key_x) == _k(key_y):
+                continue
+            traded_x = S.Or([S.And(v, veq(t['maker_order_id'], key_x)) for v, t in T])
+            shows = S.FALSE
+            for oc2, k2, o2 in post['resting']:
+                if _k(k2) == _k(key_x):
+                    shows = S.And(oc2, S.Not(S.Eq(OrderView(L, o2).displayed, S.bv(0, 64))))
+            ntx = [S.And(pr, S.Not(pp), veq(idv, key_x)) for _, pr, pp, idv in pre['tickets']]
+            dup_x = S.Or([S.And(ntx[a], ntx[b]) for a in range(len(ntx)) for b in range(a)])
+            twice_bad.append(S.And(occ_y, occ_x, twice, S.Not(traded_x), shows, S.Ult(ranks[_k(key_x)], ranks[_k(key_y)]),
+                                   S.Not(dup_x), S.Not(dup_y)))
+    extra0 = [{'name': 'M(sweep): no maker trades twice while an earlier-arrived order that shows quantity at return has not traded in '
+                       'the call', 'kind': 'obligation', 'goal': S.And(p['live'], S.Or(twice_bad))}]
+    extra = extra0 + [{'name': 'M(sweep): makers passed over without a trade keep their relative order when the call re-queues them',
               'kind': 'obligation', 'goal': S.And(p['live'], S.Or(sa_bad)), 'drain': sa_drain,
               # a same-price amendment gives an iceberg its display back (not a reserve order): prefer observable makers
               'prefer': S.And([S.Implies(occ, S.Eq(o.tag, S.bv(L.variant_index('OrderType', 'IcebergOrder'), 64)))
@@ -402,10 +426,10 @@ def cubes(tier):
     n, k = (2, 3) if tier == 'quick' else (3, 5)
     for op in 'ARQCPBXMI':
         out.append({'seq': op, 'pre': {'N': n, 'K': k}, 'cut_after': 1, 'pop_unwind': k + 2, 'qty_mode': 'full', 'price': 1,
-                    'positive_quantities': False, 'match_from_one': False, 'set_aside_max': 2, 'native': op != 'I', 'family': 'inductive', 'default_unwind': 8})
+                    'positive_quantities': False, 'match_from_one': False, 'set_aside_max': 2, 'taker_may_rest': True, 'native': op != 'I', 'family': 'inductive', 'default_unwind': 8})
     L_ = 3 if tier == 'quick' else 4
     out.append({'seq': 'M', 'pre': {'N': n, 'K': k}, 'match_unwind': L_, 'pop_unwind': k + L_ + 2, 'qty_mode': 'full', 'price': 1,
-                'family': 'sweep', 'default_unwind': 8})
+                'family': 'sweep', 'default_unwind': 8, 'taker_may_rest': True})
     return out
 
 
